@@ -144,7 +144,8 @@ static u32 pick_isn(Rng& r, size_t len);
 // arrives. Model: chunks that start below the target are dropped (they also end at or below it: boundaries), chunks above stay untouched,
 // the position is the target, nothing is delivered by the call itself, and afterwards delivery continues: s[0:off L] ++ s[off M:...].
 static void run_skip(Rng& r, bool thorough) {
-    (void)thorough; size_t n = 40 + r.below(4000); Bytes s = r.bytes(n);      // (the per-packet comparison is linear in the stream: longer streams only cost time, the thorough tier runs more histories instead) u32 isn = pick_isn(r, n); if (r.chance(1, 2)) isn = (u32)(0u - (u32)r.below((u32)n));      // half of the streams cross 2^32
+    // (the per-packet comparison is linear in the stream: longer streams only cost time, the thorough tier runs more histories instead)
+    (void)thorough; size_t n = 40 + r.below(4000); Bytes s = r.bytes(n); u32 isn = pick_isn(r, n); if (r.chance(1, 2)) isn = (u32)(0u - (u32)r.below((u32)n));      // half of the streams cross 2^32
     std::vector<size_t> cut = {0}; u32 mss = 1 + r.below(r.chance(1, 2) ? 40 : 700); while (cut.back() < n) cut.push_back(std::min(n, cut.back() + 1 + r.below(mss)));
     size_t S = cut.size() - 1; if (S < 4) return;
     size_t L = 1 + r.below((u32)S - 2), M = L + 1 + r.below((u32)std::min<size_t>(3, S - 1 - L));      // hole = segments [L, M), M <= S-1
